@@ -756,20 +756,17 @@ class Fxp():
                 # a list / tuple of NumPy scalars of a narrow type: compute in the Python type, as for an ndarray of that dtype
                 vdtype = type(val.item(0))
         
-        # scaling conversion
-        self.scaled = False
-        if self.scale is not None and self.bias is not None and not raw:
+        # scaling conversion (a raw value is already in the transformed domain, but the object keeps its scaling)
+        self.scaled = self.scale is not None and self.bias is not None and (self.bias != 0 or self.scale != 1)
+        if self.scaled and not raw:
             if self.bias != 0:
                 val = val - self.bias
             if self.scale != 1:
                 val = val / self.scale
 
-            if self.bias != 0 or self.scale != 1:
-                self.scaled = True # update scaled flag
-
-                # update vdtype due scaling tranformation
-                if vdtype == int and (isinstance(self.bias, float) or self.scale != 1):
-                    vdtype = float
+            # update vdtype due scaling tranformation
+            if vdtype == int and (isinstance(self.bias, float) or self.scale != 1):
+                vdtype = float
             
             # check if it is a numpy array
             if not isinstance(val, (np.ndarray, np.generic)):
